@@ -13,6 +13,8 @@ import (
 	"github.com/Trendyol/go-dcp/config"
 	"github.com/Trendyol/go-dcp/couchbase"
 	"github.com/Trendyol/go-dcp/metadata"
+	"github.com/Trendyol/go-dcp/metric"
+	"github.com/prometheus/client_golang/prometheus"
 	"github.com/Trendyol/go-dcp/models"
 	"github.com/Trendyol/go-dcp/stream"
 	"github.com/Trendyol/go-dcp/stream/offset"
@@ -446,6 +448,8 @@ func (e *sessEnv) exec(line string) (res string) {
 			a = "1"
 		}
 		return fmt.Sprintf("pos [%s] dirty=%s any=%s", strings.Join(sb, " "), renderVbs(dirty.ToMap()), a)
+	case "scrape":
+		return e.scrape()
 	case "metrics":
 		vb := uint16(u64(t[1]))
 		obs := e.st.GetObservers()
@@ -460,6 +464,70 @@ func (e *sessEnv) exec(line string) (res string) {
 		return fmt.Sprintf("mut=%d del=%d exp=%d", int64(m.TotalMutations), int64(m.TotalDeletions), int64(m.TotalExpirations))
 	}
 	return "bad-op"
+}
+
+// real metric.NewMetricCollector over the real stream in a private registry (C16)
+func (e *sessEnv) scrape() string {
+	reg := prometheus.NewRegistry()
+	var col prometheus.Collector = metric.NewMetricCollector(e.cl, e.st, e.disc)
+	if err := reg.Register(col); err != nil {
+		return "scrape register-error"
+	}
+	fams, err := reg.Gather()
+	if err != nil {
+		return "scrape gather-error"
+	}
+	type row struct{ v map[string]float64 }
+	rows := map[int]map[string]float64{}
+	var total float64
+	seen := false
+	for _, f := range fams {
+		name := f.GetName()
+		for _, m := range f.GetMetric() {
+			val := m.GetGauge().GetValue()
+			if m.GetCounter() != nil {
+				val = m.GetCounter().GetValue()
+			}
+			vb := -1
+			for _, l := range m.GetLabel() {
+				if l.GetName() == "vbId" {
+					vb, _ = strconv.Atoi(l.GetValue())
+				}
+			}
+			if name == "cbgo_total_lag_current" {
+				total = val
+				seen = true
+			}
+			if vb >= 0 {
+				if rows[vb] == nil {
+					rows[vb] = map[string]float64{}
+				}
+				rows[vb][name] = val
+			}
+		}
+	}
+	if !seen && len(rows) == 0 {
+		return "scrape closed"
+	}
+	f := func(x float64) string {
+		if x < 9007199254740992 {
+			return strconv.FormatUint(uint64(x), 10)
+		}
+		return "big"
+	}
+	var ks []int
+	for vb := range rows {
+		ks = append(ks, vb)
+	}
+	sort.Ints(ks)
+	var sb []string
+	for _, vb := range ks {
+		r := rows[vb]
+		sb = append(sb, fmt.Sprintf("%d:%s,%s,%s,%s,%s,%s,%s,%s", vb, f(r["cbgo_seq_no_current"]), f(r["cbgo_start_seq_no_current"]),
+			f(r["cbgo_end_seq_no_current"]), f(r["cbgo_lag_current"]), f(r["cbgo_mutation_total"]), f(r["cbgo_deletion_total"]),
+			f(r["cbgo_expiration_total"]), f(r["cbgo_persist_seq_no_current"])))
+	}
+	return fmt.Sprintf("scrape [%s] total=%s", strings.Join(sb, " "), f(total))
 }
 
 // abort in-flight micro-stepped savers at the end of a case (so no goroutine stays blocked)
